@@ -1,12 +1,16 @@
 package util
 
 import (
+	"io"
 	"os"
 	"path/filepath"
 	"sort"
 
 	"golang.org/x/sys/unix"
 )
+
+// TempFileSuffix is appended to the name of a file while it is being written by WriteFileAt
+const TempFileSuffix = ".tmp"
 
 // ListFiles lists non-dir files or first level files under the directories in the given path pattern
 func ListFiles(directoryOrFilePattern string) ([]string, error) {
@@ -74,11 +78,34 @@ func UnlinkFileAt(dir *os.File, filename string) error {
 
 // WriteFileAt writes to a new file in given directory
 func WriteFileAt(dir *os.File, filename string, data []byte, perm os.FileMode) error {
-	fd, oerr := unix.Openat(int(dir.Fd()), filename, unix.O_WRONLY|unix.O_CREAT|unix.O_TRUNC, uint32(perm))
+	// Write to a temporary file and rename it at the end, so that a partial file never appears under the given name:
+	// not after a short write, an I/O error, or a crash in the middle.
+	dirFd := int(dir.Fd())
+	tempName := filename + TempFileSuffix
+	fd, oerr := unix.Openat(dirFd, tempName, unix.O_WRONLY|unix.O_CREAT|unix.O_TRUNC, uint32(perm))
 	if oerr != nil {
 		return oerr
 	}
-	_, werr := unix.Write(fd, data)
-	unix.Close(fd)
-	return werr
+	remaining := data
+	for len(remaining) > 0 {
+		n, werr := unix.Write(fd, remaining)
+		if werr == nil && n <= 0 {
+			werr = io.ErrShortWrite
+		}
+		if werr != nil {
+			unix.Close(fd)
+			_ = unix.Unlinkat(dirFd, tempName, 0)
+			return werr
+		}
+		remaining = remaining[n:] // write(2) may store fewer bytes than requested without any error
+	}
+	if cerr := unix.Close(fd); cerr != nil {
+		_ = unix.Unlinkat(dirFd, tempName, 0)
+		return cerr
+	}
+	if rerr := unix.Renameat(dirFd, tempName, dirFd, filename); rerr != nil {
+		_ = unix.Unlinkat(dirFd, tempName, 0)
+		return rerr
+	}
+	return nil
 }
